@@ -166,6 +166,9 @@ def apply_op(state, op, out):
       layer.scale.assign(layer.scale.constraint(layer.scale))
     state.dirty_scale = False
   elif name == "finalize":
+    # finalize_constraints() computes kernel + (projected - kernel) in float32:
+    # its rounding error scales with the kernel it started from.
+    state.finalize_kmax = float(np.max(np.abs(layer.kernel.numpy())))
     layer.finalize_constraints()
     state.dirty_kernel = state.dirty_scale = False
   else:
@@ -181,6 +184,16 @@ def apply_op(state, op, out):
   judge_state(state, out, after=name)
 
 
+def _finalize_slack(state, after, sc):
+  """Extra absolute tolerance after finalize: dims factors, each with a
+  relative error of a few ulp32(|kernel before|) on weights of size <= 1."""
+  if after != "finalize":
+    return 0.0
+  rel = 8.0 * state.cfg["dims"] * float(np.spacing(np.float32(
+      getattr(state, "finalize_kmax", 1.0))))
+  return rel * sc
+
+
 def judge_state(state, out, after):
   cfg = state.cfg
   state.judged += 1
@@ -194,10 +207,11 @@ def judge_state(state, out, after):
   if not np.all(np.isfinite(y)):
     out.violate("non-finite output after %s" % after, kind="finite", **sig)
     return
-  if mv > TOL_MONO_F * sc:
+  slack = _finalize_slack(state, after, sc)
+  if mv > TOL_MONO_F * sc + slack:
     out.violate("output decreases by %.3g along an increasing input after %s" %
                 (mv, after), kind="monotonicity", **sig)
-  if bv > 1e-5 * max(1.0, abs(cfg["omin"] or 0), abs(cfg["omax"] or 0)):
+  if bv > 1e-5 * max(1.0, abs(cfg["omin"] or 0), abs(cfg["omax"] or 0)) + slack:
     out.violate("in-range output outside the bounds by %.3g after %s" %
                 (bv, after), kind="bounds", **sig)
   # dense float64 reference
@@ -226,7 +240,7 @@ def judge_state(state, out, after):
       bo = max(bo, float(cfg["omin"] - yo.min()))
     if cfg["omax"] is not None:
       bo = max(bo, float(yo.max() - cfg["omax"]))
-    if bo > 1e-5 * max(1.0, abs(cfg["omin"] or 0), abs(cfg["omax"] or 0)):
+    if bo > 1e-5 * max(1.0, abs(cfg["omin"] or 0), abs(cfg["omax"] or 0)) + slack:
       out.violate("clipped out-of-range output outside the bounds by %.3g "
                   "after %s" % (bo, after), kind="bounds-outside", **sig)
     # monotone pairs for out-of-range points: move one increasing coordinate up
